@@ -257,8 +257,8 @@ def judge_fn(ctx, job, res, resps):
                 if more:
                     ctx.hist["simplification_more_defined_points"] = ctx.hist.get("simplification_more_defined_points", 0) + more
                     M["vals"] = [b if a == "undef" else a for a, b in zip(M["vals"], R["vals"])]
-            if "local_import" in feats:
-                # function-local imports (ctx.modules / ctx.fns) are not in the model: judged by the oracle alone
+            if "local_import_unencoded" in feats:
+                # `import a.b` without alias, relative / star imports: not encoded, judged by the oracle alone
                 ctx.hist["model_silent:local_import"] = ctx.hist.get("model_silent:local_import", 0) + 1
                 M = None
             elif status != "expr" and M["status"] == "expr":
@@ -280,7 +280,7 @@ def judge_fn(ctx, job, res, resps):
         finding = next((fid for fid in cands if fid in ctx.known), None)
         # a call with keyword arguments only has no Python semantics in the Lean model: outside the theorem's domain
         # the theorems have no side condition any more; outside the model are only function-local imports (oracle-only)
-        in_domain = "local_import" not in feats
+        in_domain = "local_import_unencoded" not in feats
         if res.get("session2"):
             ctx.hist["session:second_translation"] = ctx.hist.get("session:second_translation", 0) + 1
         nontrivial = status == "expr" and bool(feats & {"if", "ifexp", "call_user", "tuple_assign"} or "=" in res["src"])
